@@ -67,11 +67,25 @@ def allSome {α : Type} : List (Option α) → Option (List α)
   | none :: _ => none
   | some x :: t => (allSome t).map (x :: ·)
 
+def parseNotifBase (name mx hs fb mode : String) : Option NotifCfg :=
+  if name.isEmpty || !(mode = "a" || mode = "y" || mode = "n") || !(hs = "-" || isHex hs) then none
+  else mx.toNat?.map fun m =>
+    { name := name, max := m, handshake := if hs = "-" then "-" else hs.toLower, fallback := namesOf fb,
+      mode := mode.toList.headD 'a' }
+
+/-- Channel size of the extended notification form: `-` = setter not called, else 1..100000. -/
+def chanSize? (s : String) : Option (Option Nat) :=
+  if s = "-" then some none else ((s.toNat?).filter (fun n => 1 ≤ n && n ≤ 100000)).map some
+
 def parseNotif (part : String) : Option NotifCfg :=
   match part.splitOn ":" with
-  | [name, mx, hs, fb, mode] =>
-    if name.isEmpty || !(mode = "a" || mode = "y" || mode = "n") || !(hs = "-" || isHex hs) then none
-    else mx.toNat?.map fun m => ⟨name, m, if hs = "-" then "-" else hs.toLower, namesOf fb, mode.toList.headD 'a'⟩
+  | [name, mx, hs, fb, mode] => parseNotifBase name mx hs fb mode
+  | [name, mx, hs, fb, mode, sy, asy, dial] =>
+    match parseNotifBase name mx hs fb mode, chanSize? sy, chanSize? asy,
+          (if dial = "-" then some none else if dial = "0" then some (some false) else if dial = "1" then some (some true)
+           else none : Option (Option Bool)) with
+    | some p, some sy, some asy, some d => some { p with sync := sy, async := asy, dial := d }
+    | _, _, _, _ => none
   | _ => none
 
 def parseRr (part : String) : Option RrCfg :=
@@ -88,10 +102,53 @@ def parseUser (part : String) : Option UserCfg :=
   | [name, codec] => if name.isEmpty then none else (parseCodec codec).map fun c => ⟨name, c⟩
   | _ => none
 
+def parseKadSet (item : String) : Option KadSet :=
+  match item.splitOn "~" with
+  | [k, v] =>
+    let mode : Option Bool := if v = "m" then some false else if v = "a" then some true else none
+    let num := (v.toNat?).filter (· ≤ 1000000000)
+    if k = "upd" then mode.map .updateMode
+    else if k = "val" then mode.map .validationMode
+    else if k = "rf" then num.map .replication
+    else if k = "ttl" then num.map .recordTtl
+    else if k = "mr" then num.map .maxRecords
+    else if k = "mrs" then num.map .maxRecordSize
+    else if k = "mpk" then num.map .maxProviderKeys
+    else if k = "mpa" then num.map .maxProviderAddresses
+    else if k = "mppk" then num.map .maxProvidersPerKey
+    else if k = "pri" then num.map .providerRefresh
+    else if k = "pttl" then num.map .providerTtl
+    else none
+  | _ => none
+
 def parseKad (part : String) : Option KadCfg :=
   match part.splitOn ":" with
-  | [names, mx] => (optNat? mx).map fun m => ⟨if names = "d" then [] else namesOf names, m⟩
+  | [names, mx] => (optNat? mx).map fun m => { names := if names = "d" then [] else namesOf names, max := m }
+  | [names, mx, opts] =>
+    match optNat? mx, allSome ((opts.splitOn "/").map parseKadSet) with
+    | some m, some sets => some { names := if names = "d" then [] else namesOf names, max := m, sets := sets }
+    | _, _ => none
   | _ => none
+
+def parseTcpSet (item : String) : Option TcpSet :=
+  match item.splitOn "~" with
+  | [k, v] =>
+    let rng := fun (lo hi : Nat) => (v.toNat?).filter (fun n => lo ≤ n && n ≤ hi)
+    if k = "nd" then (rng 0 1).map fun n => .nodelay (n == 1)
+    else if k = "ru" then (rng 0 1).map fun n => .reusePort (n == 1)
+    else if k = "nra" then (rng 1 64).map .readAhead
+    else if k = "nwb" then (rng 1 64).map .writeBuffer
+    else if k = "cot" then (rng 1 3600000).map .connectionOpen
+    else if k = "sot" then (rng 1 3600000).map .substreamOpen
+    else if k = "yms" then (rng 1 4096).map .yamuxStreams
+    else if k = "tmpd" then (rng 1 1000).map .parallelDials
+    else none
+  | _ => none
+
+/-- Protocol version / user agent words of the adapter. -/
+def isWord (s : String) : Bool :=
+  !s.isEmpty && s.toList.all fun c => c.isAlphanum || c = '/' || c = '.' || c = '_'
+
 
 def listenCount (st : State) (j : Nat) : Nat :=
   match st.nodes[j]? with
@@ -102,7 +159,10 @@ def listenCount (st : State) (j : Nat) : Nat :=
 reported listen address: the same as `l<k>` in the model. -/
 def parseKind (st : State) (j : Nat) (s : String) : Option AddrKind :=
   let nth := fun (t : String) => (t.toNat?).filter (· < listenCount st j)
+  let port := fun (t : String) (lo : Nat) => (t.toNat?).filter (fun k => lo ≤ k && k ≤ 9)
   if s = "x" then some .closed
+  else if s.startsWith "x" then (port (s.drop 1).toString 2).map .closedPort
+  else if s.startsWith "d" then (port (s.drop 1).toString 1).map .dns
   else if s = "q" then some .quic
   else if s.startsWith "l" then (nth (s.drop 1).toString).map .listen
   else if s.startsWith "r" then (nth (s.drop 1).toString).map .listen
@@ -145,13 +205,27 @@ def parseConfig (st : State) (args : List String) : Option Config :=
           | none => some none
           | some "0" => some none
           | some v => v.toNat?.map some),
-        opt "known" (fun v => allSome ((v.splitOn ",").map (parseKnown st))) with
-  | some ka, some lim, some listen, some notif, some rr, some user, some kad, some ping, some known =>
+        opt "known" (fun v => allSome ((v.splitOn ",").map (parseKnown st))),
+        (match opt "mpd" (fun v => (v.toNat?).filter (· ≤ 1000)), opt "pingf" String.toNat?,
+               (match get "tcpc" with
+                 | none => some []
+                 | some v => allSome ((v.splitOn "/").map parseTcpSet)),
+               (match get "idv" with
+                 | none => some "/verif/1"
+                 | some v => if isWord v then some v else none),
+               (match get "ida" with
+                 | none => some (some "verif")
+                 | some v => if v = "-" then some none else if isWord v then some (some v) else none) with
+          | some mpd, some pf, some tcps, some idv, some ida => some (mpd, pf, tcps, idv, ida)
+          | _, _, _, _, _ => none) with
+  | some ka, some lim, some listen, some notif, some rr, some user, some kad, some ping, some known,
+    some (mpd, pf, tcps, idv, ida) =>
     some { keepAliveMs := ka, limits := lim, tcp := (get "tcp").map (· != "0") |>.getD true, listen := listen,
            notif := notif, rr := rr, user := user, kad := kad, ping := ping,
            identify := get "identify" = some "1", bitswap := get "bitswap" = some "1",
-           known := known, customExecutor := get "exec" = some "custom" }
-  | _, _, _, _, _, _, _, _, _ => none
+           known := known, customExecutor := get "exec" = some "custom",
+           maxParallelDials := mpd, tcpSets := tcps, pingFailures := pf, idVersion := idv, idAgent := ida }
+  | _, _, _, _, _, _, _, _, _, _ => none
 
 def showOpt : Option Nat → String
   | none => "-"
@@ -160,6 +234,8 @@ def showOpt : Option Nat → String
 def showKind (j : Nat) : AddrKind → String
   | .listen k => s!"{j}.{k}/p{j}"
   | .closed => s!"x/p{j}"
+  | .closedPort k => s!"x{k}/p{j}"
+  | .dns k => s!"d{k}/p{j}"
   | .noPeer k => s!"{j}.{k}"
   | .wrongPeer k => s!"{j}.{k}/p?"
   | .quic => s!"q/p{j}"
@@ -171,6 +247,43 @@ def showKnown (known : List (Nat × List AddrKind)) : String :=
     let addrs := dedupSorted (sortStrings ((known.filter (·.1 = j)).flatMap fun (_, ks) => ks.map (showKind j)))
     if addrs.isEmpty then none else some s!"{j}:{joinWith "+" addrs}"
   joinWith ";" (sortStrings per)
+
+def showBool (b : Bool) : String := if b then "true" else "false"
+
+def showMode (auto : Bool) : String := if auto then "Automatic" else "Manual"
+
+def showNote (ch : Nat) : Note → String
+  | .notif name sy asy auto dial hs =>
+    s!"notif|{name},sync={sy},async={asy},auto={showBool auto},dial={showBool dial},hs={hs},cap={ch}/{ch}"
+  | .rr name t mi => s!"rr|{name},to={t},maxin={showOpt mi},cap={ch}/{ch}"
+  | .ping i f => s!"ping|int={i},mf={f},cap={ch}"
+  | .kad h =>
+    s!"kad|rf={h.replication}/{h.replication},pf={Consts.NODE_KAD_PARALLELISM_FACTOR},ttl={h.recordTtlMs}," ++
+    s!"upd={showMode h.updateAuto},val={showMode h.validationAuto},mr={h.store.maxRecords},mrs={h.store.maxRecordSize}," ++
+    s!"mpk={h.store.maxProviderKeys},mpa={h.store.maxProviderAddresses},mppk={h.store.maxProvidersPerKey}," ++
+    s!"pri={h.store.providerRefreshMs},pttl={h.store.providerTtlMs}"
+  | .identify v a => s!"identify|pv={v},ua={a},own=true,cap={ch}"
+  | .bitswap => s!"bitswap|cap={ch}/{ch}"
+
+def showTcp (t : TcpHeld) : String :=
+  s!"mpd={t.maxParallelDials},reuse={showBool t.reusePort},nodelay={showBool t.nodelay},nra={t.readAhead}," ++
+  s!"nwb={t.writeBuffer},cot={t.connectionOpenMs},sot={t.substreamOpenMs},left=0,yms={t.yamuxStreams},ymsame=true"
+
+/-- `pset`, `tcp`, `cfg`: what a connection's `ProtocolSet` answers per name, what the transport and the protocol
+objects hold. -/
+def heldRecord (w : Wired) (b : Built) : String :=
+  let names := dedupSorted (sortStrings (w.regs.flatMap Registration.claims))
+  let pset := names.map fun n =>
+    let codec := match protocolCodec w.regs n with
+      | some c => showCodec c
+      | none => "panic"
+    let ka := match nameKeepAlive w.regs n with
+      | some true => "Y"
+      | some false => "N"
+      | none => "?"
+    s!"{n}>{codec}>{ka}"
+  let cfg := sortStrings ((notes b).map (showNote Consts.NODE_DEFAULT_CHANNEL_SIZE))
+  s!" pset=[{joinWith ";" pset}] tcp=[{showTcp (tcpHeld b)}] cfg=[{joinWith ";" cfg}]"
 
 def record (i : Nat) (w : Wired) (custom : Bool) : String :=
   let listen := joinWith "," (w.listen.map fun (o, own) => s!"{o}:{if own then "own" else "other"}")
@@ -250,7 +363,7 @@ def step (st : State) (line : String) : State × String :=
       let res := Node.new cfg
       let st' := { st with nodes := st.nodes ++ [⟨cfg, res⟩], disturbed := st.disturbed }
       (st', match res with
-        | .ok w => record i w cfg.customExecutor
+        | .ok w => record i w cfg.customExecutor ++ heldRecord w (build cfg)
         | .noTransport => "err:Other"
         | .panic => "panic duplicate protocol name")
     | _, _ => (st, "bad-op")
@@ -272,6 +385,10 @@ def step (st : State) (line : String) : State × String :=
     | some _, some _ => (st, echo)
     | _, _ => (st, "bad-op")
   | ["bw", i] => if (built st i).isSome then (st, echo) else (st, "bad-op")
+  | ["scores", i, j] =>
+    match built st i, peerIx st j with
+    | some _, some _ => (st, echo)
+    | _, _ => (st, "bad-op")
   | ["listen", i] =>
     match built st i with
     | some (i, w, _) =>
@@ -304,7 +421,7 @@ def step (st : State) (line : String) : State × String :=
       if okRest then ({ st with disturbed := true }, if hasRr c p then echo else "noproto") else (st, "bad-op")
     | _, _, _, _ => (st, "bad-op")
   | ["respond", i, p, k, len, tag] =>
-    match built st i, k.toNat?, len? len, tag? tag with
+    match built st i, (if k = "n" then some 0 else k.toNat?), len? len, tag? tag with
     | some (_, _, c), some _, some _, some _ => ({ st with disturbed := true }, if hasRr c p then echo else "noproto")
     | _, _, _, _ => (st, "bad-op")
   | ["drop_subs", i, p] =>
